@@ -791,6 +791,9 @@ def run(ctx):
     ctx.rule("R-11.10", "each half of a zero swap runs on the engine of its own ensemble: the per-ensemble engine table handed to the move is built from that ensemble's entry of simulation.ensemble_engines", floor=1)
     from .shared import per_ensemble_engine_table
     ctx.attempt(per_ensemble_engine_table, ctx, "R-11.10", " (the new [0+] path is continued with the [0-] dynamics and the QuanTIS rule evaluated with the wrong potential and beta: swapping twice does not restore the sequences)")
+    ctx.rule("R-11.12", "the crossing frames of a zero swap are addressed by (file, index) with index 0 being a frame: no truthiness test of a frame index (shared with C12 R-12.12)", floor=5)
+    from .shared import frame_index_truthiness
+    ctx.attempt(frame_index_truthiness, ctx, "R-11.12", ["infretis/classes/engines/gromacs.py", "infretis/classes/engines/cp2k.py", "infretis/classes/engines/lammps.py", TURTLE, ASE, ENGBASE_REL], " (the frames a zero swap has just created sit at index 0 of their files: the whole multi-frame file is dumped instead and engines that read the last image continue from the wrong configuration)")
     ctx.rule("R-11.11", "trajectory file names are unique per process (process-wide running number): the two one-step propagations of a QuanTIS swap on two engine objects never share a file", floor=1)
     ctx.attempt(r1111, ctx)
     from . import c19
@@ -799,6 +802,7 @@ def run(ctx):
 
 
 VARIANTS = [
+    B("c11-dump-config-index-by-truthiness", ENGBASE_REL, "        if idx is None:", "        if not idx:", "R-11.12", control=True, why="seeded C11_l"),
     K("c11-keep-process-counter-itertools", ENGBASE_REL, 'str(counter())\n', 'str(next(_PROPAGATIONS))\n', also=[(ENGBASE_REL, "def counter():\n", "import itertools\n_PROPAGATIONS = itertools.count()\n\n\ndef counter():\n")]),
     K("c11-keep-process-counter-global", ENGBASE_REL, "    counter.count = 0 if not hasattr(counter, \"count\") else counter.count + 1\n    return counter.count\n", "    global _N_PROP\n    _N_PROP += 1\n    return _N_PROP\n\n\n_N_PROP = -1\n"),
     B("c11-propagation-number-per-engine", ENGBASE_REL, 'ens_set["ens_name"] + "_" + str(os.getpid()) + "_" + str(counter())', 'ens_set["ens_name"] + "_" + str(os.getpid()) + "_" + str(id(self) % 7)', "R-11.11", control=True, why="seeded C11_k"),
